@@ -10,6 +10,9 @@ pub mod c08;
 pub mod c09;
 pub mod c10;
 pub mod c13;
+pub mod c23;
+pub mod c31;
+pub mod c34;
 
 pub fn dispatch(cfg: &Cfg) -> Option<Outcome> {
     Some(match cfg.prop.as_str() {
@@ -23,6 +26,9 @@ pub fn dispatch(cfg: &Cfg) -> Option<Outcome> {
         "C09" => c09::run(cfg),
         "C10" => c10::run(cfg),
         "C13" => c13::run(cfg),
+        "C23" | "C24" => c23::run(cfg),
+        "C31" => c31::run(cfg),
+        "C34" => c34::run(cfg),
         _ => return None,
     })
 }
